@@ -22,8 +22,14 @@ RULE = ("exhaustive product: entry point (Output / SectionOutput / IO std+err / 
         "screen = stacked contents; non-trivial = at least one refused call")
 THEOREMS = ["gate_level", "gate_iff", "gate_monotone", "quiet_silent", "refused_call_is_invisible",
             "refused_text_never_appears", "gated_run_is_section_run",
-            "refused_arguments_do_not_matter", "gated_screen_is_stack", "groups_are_one_run"]
-TRUSTED = ["which gate calls guard each method body (Model/Gate.v path) is a transcription, checked by this exhaustive tie"]
+            "refused_arguments_do_not_matter", "gated_screen_is_stack", "groups_are_one_run",
+            "may_write_matches_source", "gate_constants_match_source", "source_gate_level"]
+TRUSTED = ["which gate calls guard each method body (Model/Gate.v path) is a transcription, checked by this exhaustive tie",
+           "harness/translate.py (fail-closed translator of a pure subset of Python, driven by ast; its reading of that subset and the "
+           "declared types of self._quiet / self._verbosity / flags are trusted) regenerates coq/theories/Generated/GenGate.v from "
+           "Output._may_write and the constants of api/io/flags.py in the source tree on every run (bin/setup), and the theorems "
+           "may_write_matches_source, gate_constants_match_source re-check the hand model (Model/Gate.v may_write) against them for "
+           "every quiet, verbosity and flags: a second tie of model and code next to the differential run"]
 ASSUMPTIONS = ["verbosity is one of NORMAL/VERBOSE/VERY_VERBOSE/DEBUG (set_verbosity enforces it)",
                "gated_screen_is_stack: the texts of the ALLOWED writes are good markup (C15's class), the refused ones may be "
                "anything; refused_call_is_invisible / refused_text_never_appears: none"]
